@@ -3,7 +3,7 @@
    subjects of C19 and C06; the last theorem composes the three into the bound the monitor applies. *)
 From Coq Require Import List NArith ZArith Bool.
 Import ListNotations.
-From VF Require Import Base Core Core_lemmas Cursor Cursor_proofs Extra_proofs.
+From VF Require Import Base Core Core_lemmas Cursor Cursor_proofs Probe Probe_proofs Extra_proofs.
 
 (* never itself, never a Dead/Left peer: [el] is "not this node and not Dead/Left" at the tick *)
 Theorem C03_never_self_or_dead : forall el rs s s' x w,
@@ -44,6 +44,15 @@ Theorem C03_reap_removes_only_old_dead : forall c s n r,
   dead_or_left (rst r) = true /\ (gtd c < now s - rsince r)%Z.
 Proof. exact reap_removes_only_old_dead. Qed.
 Print Assumptions C03_reap_removes_only_old_dead.
+
+(* a probe of a member that answers nothing fails (Probe model; then the node suspects it, and the suspicion
+   ends in Dead by start + max: C06_bounds) *)
+Theorem C03_silent_target_fails : forall pi,
+  p_send pi <> 2%Z -> p_tcp pi = None ->
+  Forall (fun a => match a with Ack s _ => s <> p_seq pi | Nack _ _ => True end) (p_arrivals pi) ->
+  probe_outcome pi = Failed.
+Proof. exact silent_target_fails. Qed.
+Print Assumptions C03_silent_target_fails.
 
 (* the time bound: two full passes at the slowest awareness-scaled pace plus the maximum suspicion timeout *)
 Theorem C03_compose : forall (n : nat) pi awmax smax tc (starts : list Z) k tk e dl,
